@@ -24,7 +24,7 @@ TECH = {
     "C12": "RF-NOWRITE failure leaves outputs untouched (path-sensitive typestate) + RF-NEG decode-error taint + RF-BITS bit-provenance abstract evaluation of the VPS/DVB-PDC encoders against their decoders",
     "C13": "RF-DOM debounce-condition dominance (structural branch atoms) on every announcement/reset site + RF-CORR must-pass-through re-arm/clear of the debounce state",
     "C14": "RF-PAIR path-sensitive typestate (TZ change/restore) + RF-WHO who-may-call + RF-DEP save-before-set",
-    "C15": "RF-DEP flags provenance + RF-INIT + RF-DOM CRC/Hamming dominance + RF-PURE",
+    "C15": "RF-DEP flags provenance + RF-INIT constructor completeness + RF-DOM CRC/Hamming dominance + RF-NEG decode-error taint (stores, shifts, unexamined results) + RF-IVL intervals with loop trip-count caps + RF-CORR tracker update + RF-PURE",
     "C16": "RF-WHO export write layer + RF-DOM grow-before-store",
     "C17": "RF-TAB return-code/metacharacter table agreement + RF-IVL capacity",
     "C18": "RF-LOCK lockset + lock order + RF-DOM service-mask dominance",
